@@ -1,0 +1,184 @@
+//go:build verif
+
+package escape
+
+import (
+	"sort"
+
+	"golang.org/x/tools/go/ssa"
+)
+
+// This file only exists with the build tag `verif`. It exposes snapshots of escape graphs, observation points of
+// the lattice operations and knobs for the worklist orders to the external verification harness.
+
+// VerifNode is a node of a graph snapshot.
+type VerifNode struct {
+	ID     int    `json:"id"`
+	Kind   int    `json:"kind"`
+	Status int    `json:"status"`
+	Debug  string `json:"debug"`
+}
+
+// VerifEdge is an edge of a graph snapshot; Flags is the bit set {1 internal, 2 external, 4 subnode}.
+type VerifEdge struct {
+	Src   int `json:"src"`
+	Dst   int `json:"dst"`
+	Flags int `json:"flags"`
+}
+
+// VerifGraph is a snapshot of an escape graph.
+type VerifGraph struct {
+	Nodes []VerifNode `json:"nodes"`
+	Edges []VerifEdge `json:"edges"`
+}
+
+// VerifSnapshot returns the nodes (those with a status entry), their status, and the flagged edges of g.
+func VerifSnapshot(g *EscapeGraph) VerifGraph {
+	s := VerifGraph{Nodes: []VerifNode{}, Edges: []VerifEdge{}}
+	if g == nil {
+		return s
+	}
+	for n, st := range g.status {
+		s.Nodes = append(s.Nodes, VerifNode{n.number, int(n.kind), int(st), n.debugInfo})
+	}
+	for src, outs := range g.edges {
+		for dst, f := range outs {
+			if f != 0 {
+				s.Edges = append(s.Edges, VerifEdge{src.number, dst.number, int(f)})
+			}
+		}
+	}
+	sort.Slice(s.Nodes, func(i, j int) bool { return s.Nodes[i].ID < s.Nodes[j].ID })
+	sort.Slice(s.Edges, func(i, j int) bool {
+		a, b := s.Edges[i], s.Edges[j]
+		if a.Src != b.Src {
+			return a.Src < b.Src
+		}
+		return a.Dst < b.Dst
+	})
+	return s
+}
+
+// VerifNodesOf returns the node objects of g by number.
+func VerifNodesOf(g *EscapeGraph) map[int]*Node {
+	m := map[int]*Node{}
+	for n := range g.status {
+		m[n.number] = n
+	}
+	for src, outs := range g.edges {
+		m[src.number] = src
+		for dst := range outs {
+			m[dst.number] = dst
+		}
+	}
+	return m
+}
+
+// VerifEmptyLike returns a new empty graph over the same node group as g.
+func VerifEmptyLike(g *EscapeGraph) *EscapeGraph { return NewEmptyEscapeGraph(g.nodes) }
+
+// VerifSetStatus applies the real MergeNodeStatus.
+func VerifSetStatus(g *EscapeGraph, n *Node, status int) { g.MergeNodeStatus(n, EscapeStatus(status), nil) }
+
+// VerifAddEdge applies the real AddEdge with the given flag bits.
+func VerifAddEdge(g *EscapeGraph, src, dst *Node, flags int) { g.AddEdge(src, dst, edgeFlags(flags)) }
+
+// VerifMergeObserver, when set, is called at the end of every EscapeGraph.Merge with a clone of the receiver before
+// the merge, the argument, and the receiver after the merge.
+var VerifMergeObserver func(pre, h, post *EscapeGraph)
+
+var verifInObserver bool
+
+func verifPreMerge(g *EscapeGraph) *EscapeGraph {
+	if VerifMergeObserver == nil || verifInObserver {
+		return nil
+	}
+	return g.Clone()
+}
+
+func verifPostMerge(pre, h, post *EscapeGraph) {
+	if VerifMergeObserver == nil || pre == nil || verifInObserver {
+		return
+	}
+	verifInObserver = true
+	defer func() { verifInObserver = false }()
+	VerifMergeObserver(pre, h, post)
+}
+
+// VerifBlockOrder, when set, chooses which entry (0 <= i < n) of a function's block worklist is processed next.
+var VerifBlockOrder func(n int) int
+
+// VerifFuncOrder, when set, chooses which entry (0 <= i < n) of the function worklist is processed next.
+var VerifFuncOrder func(n int) int
+
+func verifPickBlock(ea *functionAnalysisState) {
+	if VerifBlockOrder != nil && len(ea.worklist) > 1 {
+		i := VerifBlockOrder(len(ea.worklist))
+		ea.worklist[0], ea.worklist[i] = ea.worklist[i], ea.worklist[0]
+	}
+}
+
+func verifPickFunc(worklist []*functionAnalysisState) {
+	if VerifFuncOrder != nil && len(worklist) > 1 {
+		i := VerifFuncOrder(len(worklist))
+		last := len(worklist) - 1
+		worklist[last], worklist[i] = worklist[i], worklist[last]
+	}
+}
+
+// VerifSetMonotonicityRecording switches the package's per-instruction (pre, post) recording on or off and clears
+// what was recorded.
+func VerifSetMonotonicityRecording(on bool) {
+	checkMonotonicityEveryInstruction = on
+	instructionMonoCheckData = map[ssa.Instruction][]cachedGraphMonotonicity{}
+}
+
+// VerifTransferPair is one recorded application of the transfer function of Instr.
+type VerifTransferPair struct {
+	Instr ssa.Instruction
+	Pre   *EscapeGraph
+	Post  *EscapeGraph
+}
+
+// VerifRecordedTransfers returns the (pre, post) pairs recorded since recording was switched on.
+func VerifRecordedTransfers() []VerifTransferPair {
+	r := []VerifTransferPair{}
+	for instr, ps := range instructionMonoCheckData {
+		for _, p := range ps {
+			r = append(r, VerifTransferPair{instr, p.input, p.output})
+		}
+	}
+	return r
+}
+
+// VerifFinalGraphs returns the final summary graph of every summarised function.
+func VerifFinalGraphs(prog *ProgramAnalysisState) map[*ssa.Function]*EscapeGraph {
+	r := map[*ssa.Function]*EscapeGraph{}
+	for f, s := range prog.summaries {
+		if s != nil && s.finalGraph != nil {
+			r[f] = s.finalGraph
+		}
+	}
+	return r
+}
+
+// VerifBlockEnds returns the block-end graphs of f (by block index).
+func VerifBlockEnds(prog *ProgramAnalysisState, f *ssa.Function) map[int]*EscapeGraph {
+	r := map[int]*EscapeGraph{}
+	if s := prog.summaries[f]; s != nil {
+		for b, g := range s.blockEnd {
+			r[b.Index] = g
+		}
+	}
+	return r
+}
+
+// VerifTransfer applies the real transfer function of instr (an instruction of f) to g, in place.
+func VerifTransfer(prog *ProgramAnalysisState, f *ssa.Function, instr ssa.Instruction, g *EscapeGraph) bool {
+	s := prog.summaries[f]
+	if s == nil || s.nodes == nil {
+		return false
+	}
+	s.transferFunction(instr, g)
+	return true
+}
